@@ -268,6 +268,328 @@ def do_layout(lay, c, fs0, d, base):
     return out
 
 
+# ----------------------------------------------------------------------------------------------
+# argument / attribute types: the same logical spectrum and the same call, spelled with other Python / numpy types
+
+import pathlib
+
+
+def flag_obj(x):
+    """type and value of a folding flag, for the model ([pyflag] of Model/FileFormat.v)"""
+    if isinstance(x, np.ndarray):
+        if x.ndim != 0:
+            return {'py': 'other', 'repr': repr(x)[:60]}
+        return {'py': 'arr0', 'inner': flag_obj(x[()])}
+    if x is True or x is False:
+        return {'py': 'bool', 'value': x}
+    if isinstance(x, np.bool_):
+        return {'py': 'np_bool', 'value': bool(x)}
+    if isinstance(x, np.integer):
+        return {'py': 'np_int', 'value': int(x)}
+    if isinstance(x, int):
+        return {'py': 'int', 'value': int(x)}
+    if isinstance(x, (float, np.floating)):
+        return {'py': 'float', 'value': bool(x != 0)}
+    return {'py': 'other', 'repr': repr(x)[:60]}
+
+
+def seq_kind(x):
+    if x is None or type(x) is list:
+        return 'list'
+    if type(x) is tuple:
+        return 'tuple'
+    if isinstance(x, np.ndarray):
+        return 'ndarray'
+    return 'other:' + type(x).__name__
+
+
+def describe_c(fs):
+    """canonical form of a Spectrum object: bool(folded), list of str labels; plus the types found"""
+    pid = fs.pop_ids
+    return {'shape': [int(n) for n in fs.shape], 'data': fl(fs.data),
+            'mask': [bool(t) for t in np.ma.getmaskarray(fs).ravel()],
+            'folded': bool(fs.folded), 'flag': flag_obj(fs.folded),
+            'pop_ids': None if pid is None else [str(x) for x in pid],
+            'pop_items_are_str': pid is None or all(isinstance(x, str) for x in pid), 'pop_kind': seq_kind(pid),
+            'extrap_x': None if fs.extrap_x is None else float(fs.extrap_x),
+            'is_spectrum': type(fs) is dadi.Spectrum, 'data_dtype': str(fs.data.dtype),
+            'mask_dtype': str(np.ma.getmaskarray(fs).dtype)}
+
+
+CANON_KEYS = ('shape', 'mask', 'folded', 'pop_ids', 'extrap_x', 'is_spectrum', 'comments', 'is_plain', 'bare_ok')
+
+
+def same_c(a, b):
+    """same canonical record (floats compared bit for bit, nan == nan)"""
+    if ('error' in a) or ('error' in b):
+        return False
+    if any(a.get(k) != b.get(k) for k in CANON_KEYS):
+        return False
+    x, y = a.get('data', []), b.get('data', [])
+    return len(x) == len(y) and all((p != p and q != q) or (p == q and np.signbit(p) == np.signbit(q)) for p, q in zip(x, y))
+
+
+def nested(a, f, seq=list):
+    a = np.asarray(a)
+    if a.ndim == 0:
+        return f(a[()])
+    return seq(nested(x, f, seq) for x in a)
+
+
+def typed_flag(kind, b):
+    b = bool(b)
+    if kind == 'bool': return b
+    if kind == 'np_bool': return np.array([b, not b])[0]            # an element of a boolean flag array
+    if kind == 'np_all': return np.all(np.array([b, b]))            # the result of a numpy reduction
+    if kind == 'np_compare': return np.float64(1.0 if b else 0.0) > 0.5
+    if kind == 'int': return int(b)
+    if kind == 'np_int': return np.int64(b)
+    if kind == 'np_uint8': return np.uint8(b)
+    if kind == 'float': return float(b)
+    if kind == 'arr0_bool': return np.array(b)
+    if kind == 'arr0_int': return np.array(int(b))
+    raise ValueError(kind)
+
+
+def typed_truth(kind, b):
+    """a keyword that is only tested for truth (foldmaskinfo, mask_corners, return_comments)"""
+    return typed_flag(kind, b)
+
+
+def typed_mask(kind, M):
+    if kind == 'bool_array': return M.copy()
+    if kind == 'int_array': return M.astype(int)
+    if kind == 'uint8_array': return M.astype(np.uint8)
+    if kind == 'float_array': return M.astype(float)
+    if kind == 'list': return nested(M, bool)
+    if kind == 'int_list': return nested(M, int)
+    if kind == 'tuple': return nested(M, bool, tuple)
+    if kind == 'nomask': return np.ma.nomask
+    if kind == 'none': return None
+    if kind == 'false': return False
+    if kind == 'np_false': return np.bool_(False)
+    raise ValueError(kind)
+
+
+DATA_DTYPES = {'float32': np.float32, 'float16': np.float16, 'longdouble': np.longdouble, 'int64': np.int64, 'int32': np.int32,
+               'int16': np.int16, 'uint8': np.uint8, 'uint16': np.uint16, 'big_endian': '>f8'}
+
+
+def typed_data(kind, L, M):
+    """(constructor argument, the ndarray the generic writer is handed or None when the type is no ndarray)"""
+    if kind == 'float64': a = L.copy(); return a, a
+    if kind in DATA_DTYPES:
+        a = L.astype(DATA_DTYPES[kind])
+        if not np.array_equal(bits(a.astype(float)), bits(L)):
+            raise RuntimeError('content is not exactly representable as %s' % kind)
+        return a, a
+    if kind == 'object': a = np.array(nested(L, float), dtype=object).reshape(L.shape); return a, None
+    if kind == 'list': return nested(L, float), None
+    if kind == 'tuple': return nested(L, float, tuple), None
+    if kind == 'int_list': return nested(L, int), None
+    if kind == 'masked_array': return np.ma.masked_array(L.copy(), M.copy()), None
+    raise ValueError(kind)
+
+
+def typed_seq(kind, xs):
+    """pop_ids / comment_lines in another container"""
+    if xs is None: return None
+    if kind == 'list': return list(xs)
+    if kind == 'tuple': return tuple(xs)
+    if kind == 'np_str_array': return np.array(list(xs), dtype=str) if len(xs) else np.array([], dtype=str)
+    if kind == 'np_object_array':
+        a = np.empty(len(xs), dtype=object); a[:] = list(xs); return a
+    if kind == 'list_of_np_str': return [np.str_(x) for x in xs]
+    if kind == 'generator': return (x for x in list(xs))
+    if kind == 'dict_keys': return dict((x, k) for k, x in enumerate(xs)).keys() if len(set(xs)) == len(xs) else list(xs)
+    raise ValueError(kind)
+
+
+def typed_precision(kind, p):
+    if kind == 'int': return int(p)
+    if kind == 'np_int64': return np.int64(p)
+    if kind == 'np_int32': return np.int32(p)
+    if kind == 'np_uint8': return np.uint8(p)
+    if kind == 'float': return float(p)
+    if kind == 'np_float64': return np.float64(p)
+    if kind == 'arr0_int': return np.array(int(p))
+    raise ValueError(kind)
+
+
+class Name:
+    """a file name in the spelling [kind]; `arg(mode)` is what the library is handed, `close()` afterwards"""
+    def __init__(self, kind, path):
+        self.kind, self.path, self.fid = kind, path, None
+    def arg(self, mode):
+        k = self.kind
+        if k == 'str': return self.path
+        if k == 'np_str': return np.str_(self.path)
+        if k == 'pathlib': return pathlib.Path(self.path)
+        if k == 'bytes': return self.path.encode()
+        if k == 'fileobj':
+            self.fid = gzip.open(self.path, mode + 't') if self.path.endswith('.gz') else open(self.path, mode)
+            return self.fid
+        raise ValueError(k)
+    def close(self):
+        if self.fid is not None:
+            self.fid.close(); self.fid = None
+
+
+def compact(rec, canon):
+    """a record identical to the canonical variant's is sent as a reference to it"""
+    if canon is not None and same_c(rec, canon):
+        return {'same': True}
+    return rec
+
+
+def run_variant(v, grp, c, L, M, folded, labels, extrap, path, canon):
+    """one spelling [v] (dimension -> kind; absent = canonical type) of the spectrum (L, M, folded, labels, extrap) and
+    of the calls of the case, through every entry point in v['entries']"""
+    kinds = v['kinds']
+    out = {'vid': v['vid'], 'kinds': kinds}
+    K = lambda dim, dflt: kinds.get(dim, dflt)
+    try:
+        darg, arr_plain = typed_data(K('data', 'float64'), L, M)
+        fs = dadi.Spectrum(darg, typed_mask(K('mask', 'bool_array'), M), mask_corners=False, data_folded=typed_flag(K('flag', 'bool'), folded),
+                           check_folding=False, pop_ids=typed_seq(K('pop_ids', 'list'), labels), extrap_x=extrap)
+    except Exception as e:
+        out['build_error'] = err(e)
+        return out
+    built = describe_c(fs)
+    out['built'] = built
+    comm = lambda: typed_seq(K('comments', 'list'), list(c['comments']))
+    entries = v['entries']
+    # ---- Spectrum.to_file / from_file
+    if 'file' in entries:
+        out['writes'] = []
+        for k, cfg in enumerate(grp['configs']):
+            w = {'cfg': cfg}
+            f = path + '_%d%s' % (k, '.fs.gz' if cfg['gz'] else '.fs')
+            nm = Name(K('fname', 'str'), f)
+            try:
+                if os.path.exists(f):
+                    os.remove(f)
+                fs.to_file(nm.arg('w'), precision=typed_precision(K('precision', 'int'), cfg['precision']), comment_lines=comm(),
+                           foldmaskinfo=typed_truth(K('fmi', 'bool'), cfg['fmi']))
+                nm.close()
+                t = raw_text(f)
+                if t == grp['refs']['file'][k]:
+                    w['text_is_ref'] = True
+                else:
+                    w['text'] = t
+            except Exception as e:
+                nm.close()
+                w.update(err(e))
+            if 'error' not in w:
+                nm = Name(K('fname', 'str'), f)
+                try:
+                    res = dadi.Spectrum.from_file(nm.arg('r'), mask_corners=typed_truth(K('mc', 'bool'), cfg['mc']),
+                                                  return_comments=typed_truth(K('rc', 'bool'), True))
+                    nm.close()
+                    back, comments = res
+                    r = describe_c(back); r['comments'] = list(comments)
+                except Exception as e:
+                    nm.close()
+                    r = err(e)
+                w['read'] = compact(r, canon['writes'][k].get('read') if canon and 'writes' in canon else None)
+            out['writes'].append(w)
+        out['unchanged_file'] = same_c(describe_c(fs), built)
+    # ---- Numerics.array_to_file / array_from_file: the masked object, and the bare array in the type it was given in
+    if 'array' in entries:
+        out['array'] = {}
+        for name, arr in (('masked', fs), ('plain', arr_plain if arr_plain is not None else fs.data)):
+            a = {}
+            f = path + '_%s.txt' % name
+            nm = Name(K('fname', 'str'), f)
+            try:
+                if os.path.exists(f):
+                    os.remove(f)
+                Numerics.array_to_file(arr, nm.arg('w'), precision=typed_precision(K('precision', 'int'), c['precision']), comment_lines=comm())
+                nm.close()
+                t = raw_text(f)
+                if t == grp['refs']['array'][name]:
+                    a['text_is_ref'] = True
+                else:
+                    a['text'] = t
+            except Exception as e:
+                nm.close()
+                a.update(err(e))
+            if 'error' not in a:
+                nm = Name(K('fname', 'str'), f)
+                try:
+                    back, comments = Numerics.array_from_file(nm.arg('r'), return_comments=typed_truth(K('rc', 'bool'), True))
+                    nm.close()
+                    r = {'shape': [int(n) for n in back.shape], 'data': fl(back), 'comments': list(comments), 'is_plain': type(back) is np.ndarray}
+                except Exception as e:
+                    nm.close()
+                    r = err(e)
+                a['read'] = compact(r, canon['array'][name].get('read') if canon and 'array' in canon else None)
+            out['array'][name] = a
+        out['unchanged_array'] = same_c(describe_c(fs), built)
+    # ---- pickle
+    if 'pickle' in entries:
+        pk = {}
+        try:
+            func, args = copyreg.dispatch_table[dadi.Spectrum](fs)
+            dat, msk, fol, pids, ex = args
+            pk['args'] = {'data_ok': np.array_equal(bits(np.asarray(dat, float)), bits(L)) and list(np.shape(dat)) == list(L.shape),
+                          'mask_ok': np.array_equal(np.broadcast_to(np.asarray(msk, bool), M.shape), M),
+                          'flag': flag_obj(fol), 'pop_kind': seq_kind(pids), 'pop_ids': None if pids is None else [str(x) for x in pids],
+                          'extrap_x': None if ex is None else float(ex)}
+            pk['unpickled_args'] = describe_c(func(*args))
+        except Exception as e:
+            pk['reduce_error'] = err(e)
+        pk['protocols'] = {}
+        for proto in sorted({0, 2, pickle.HIGHEST_PROTOCOL}):
+            try:
+                r = describe_c(pickle.loads(pickle.dumps(fs, proto)))
+            except Exception as e:
+                r = err(e)
+            pk['protocols'][str(proto)] = r
+        try:
+            pk['protocols']['deepcopy'] = describe_c(copy.deepcopy(fs))
+        except Exception as e:
+            pk['protocols']['deepcopy'] = err(e)
+        if canon and 'pickle' in canon:
+            cpk = canon['pickle']
+            if 'unpickled_args' in pk and 'unpickled_args' in cpk:
+                pk['unpickled_same'] = same_c(pk['unpickled_args'], cpk['unpickled_args'])
+            for proto in list(pk['protocols']):
+                r = pk['protocols'][proto]
+                if 'error' not in r and same_c(r, cpk['protocols'].get(proto, {'error': 1})):
+                    pk['protocols'][proto] = {'same': True, 'flag': r['flag'], 'pop_kind': r['pop_kind']}
+        out['pickle'] = pk
+        out['unchanged_pickle'] = same_c(describe_c(fs), built)
+    if canon is not None:
+        # the built object is sent in full only when it is not the canonical variant's
+        if same_c(built, canon['built']) and built['data_dtype'] == canon['built']['data_dtype'] and built['mask_dtype'] == canon['built']['mask_dtype']:
+            out['built'] = {'same': True, 'flag': built['flag'], 'pop_kind': built['pop_kind'], 'pop_items_are_str': built['pop_items_are_str']}
+    return out
+
+
+def do_types(c, fs0, d, base):
+    T = c['types']
+    L0 = np.array(fs0.data, dtype=float, order='C'); M = np.array(np.ma.getmaskarray(fs0), dtype=bool, order='C')
+    folded = bool(fs0.folded); labels = None if fs0.pop_ids is None else list(fs0.pop_ids); extrap = fs0.extrap_x
+    out = []
+    for g, grp in enumerate(T['groups']):
+        L = L0 if grp['data'] is None else np.array(grp['data'], dtype=float).reshape(L0.shape)
+        res = {'content': grp['content'], 'variants': []}
+        path = base + '_T%d' % g
+        canon = run_variant({'vid': 'canonical', 'kinds': {}, 'entries': ['file', 'array', 'pickle']}, grp, c, L, M, folded, labels, extrap, path, None)
+        res['canonical'] = canon
+        if 'build_error' in canon:
+            out.append(res); continue
+        for v in grp['variants']:
+            try:
+                res['variants'].append(run_variant(v, grp, c, L, M, folded, labels, extrap, path, canon))
+            except Exception as e:
+                r = err(e); r['vid'] = v['vid']; r['kinds'] = v['kinds']; r['variant_driver_failed'] = True
+                res['variants'].append(r)
+        out.append(res)
+    return out
+
+
 def do_case(c, d):
     rec = {'id': c['id']}
     shape = c['shape']
@@ -360,6 +682,12 @@ def do_case(c, d):
         except Exception as e:
             r = err(e); r['kind'] = lay['kind']; r['prm'] = lay['prm']; r['layout_driver_failed'] = True
             rec['layouts'].append(r)
+    # ---- the same spectrum and calls spelled with other argument / attribute types
+    if c.get('types'):
+        try:
+            rec['types'] = do_types(c, fs, d, base)
+        except Exception as e:
+            rec['types'] = err(e)
     return rec
 
 
